@@ -41,7 +41,22 @@ def run_one(sid, tier, budget):
     try:
         sh(f"rsync -a --exclude .git --exclude __pycache__ {REPO}/ {work}/mut/")
         sh(f"rsync -a --exclude .git --exclude __pycache__ {REPO}/ {work}/orig/")
-        ap = sh(f"cd {work}/mut && git init -q . && git apply --whitespace=nowarn {d}/patch.diff")
+        # a patch written against an earlier /repo commit may have been rebased by hand after a fix: commit
+        patch = os.path.join(d, "patch_rebased.diff") if os.path.exists(os.path.join(d, "patch_rebased.diff")) else os.path.join(d, "patch.diff")
+        meta["patch_used"] = os.path.basename(patch)
+        ap = sh(f"cd {work}/mut && git init -q . && git apply --whitespace=nowarn {patch}")
+        if ap.returncode != 0 and patch.endswith("patch.diff"):
+            # written against /repo 230dfa6; commit a428420 changed the five `df[column].map(func)` call
+            # sites: carry that rewording into the context / removed lines of the patch and try again
+            txt = open(patch).read().splitlines(keepends=True)
+            txt = [ln.replace("df[column].map(func)", "_get_cells(df, column).map(func)")
+                   if ln[:1] in (" ", "-") and not ln.startswith("---") else ln for ln in txt]
+            auto = os.path.join(work, "auto_rebased.diff")
+            open(auto, "w").write("".join(txt))
+            ap = sh(f"cd {work}/mut && git apply --whitespace=nowarn {auto}")
+            if ap.returncode == 0:
+                meta["patch_used"] = "patch.diff (context auto-rebased onto a428420)"
+                shutil.copy(auto, os.path.join(d, "patch_rebased.diff"))
         meta["patch_applies"] = ap.returncode == 0
         if ap.returncode != 0:
             meta["error"] = ap.stderr[-500:]
